@@ -79,6 +79,11 @@ type c15Case struct {
 	// StaleSource: source peer 0 negotiates graceful restart and loses its transport after its
 	// announcements, so its routes are retained as stale when the policy changes
 	StaleSource bool `json:"stale_source"`
+	// Mid: an intermediate policy, installed (with the same kind of reset) after the initial announcements and before
+	// the concurrent operations; nothing of it may survive under New
+	Mid *c15Program `json:"mid"`
+	// SendMax: ADD-PATH send-max towards target 0 (0 = no ADD-PATH)
+	SendMax int `json:"send_max"`
 }
 
 var c15Prefixes = []string{"10.100.0.0/24", "10.100.1.0/24", "10.100.128.0/17", "10.200.0.0/16", "10.200.5.0/24", "192.168.7.0/24"}
@@ -91,6 +96,7 @@ func c15Peers() []rsPeer {
 		{Addr: "10.0.0.2", ID: "10.0.0.2", Kind: rsEBGP, AS: 65002},
 		{Addr: "10.0.0.3", ID: "10.0.0.3", Kind: rsEBGP, AS: 65003},
 		{Addr: "10.0.0.4", ID: "10.0.0.4", Kind: rsIBGP, AS: rsLocalAS},
+		{Addr: "10.0.0.5", ID: "10.0.0.5", Kind: rsEBGP, AS: 65005}, // third source (route.Src 2)
 	}
 }
 
@@ -153,7 +159,7 @@ func drawC15(t *rapid.T) c15Case {
 	}
 	c.StaleSource = rapid.IntRange(0, 3).Draw(t, "stale_source") == 0
 	route := func(l string) c15Route {
-		r := c15Route{Src: rapid.IntRange(0, 1).Draw(t, l+"src"), Prefix: rapid.IntRange(0, len(c15Prefixes)-1).Draw(t, l+"p"), Variant: rapid.IntRange(0, 3).Draw(t, l+"v"), Comm: -1}
+		r := c15Route{Src: rapid.IntRange(0, 2).Draw(t, l+"src"), Prefix: rapid.IntRange(0, len(c15Prefixes)-1).Draw(t, l+"p"), Variant: rapid.IntRange(0, 3).Draw(t, l+"v"), Comm: -1}
 		if rapid.Bool().Draw(t, l+"c") {
 			r.Comm = rapid.IntRange(0, len(c15Comms)-1).Draw(t, l+"cv")
 		}
@@ -169,6 +175,23 @@ func drawC15(t *rapid.T) c15Case {
 	if c.StaleSource {
 		c.Concurrent = nil
 	}
+	switch rapid.IntRange(0, 3).Draw(t, "mid") {
+	case 1:
+		m := prog("mid")
+		m.PrefixSets = c.New.PrefixSets
+		c.Mid = &m
+	case 2: // one source is rejected on import for a while, then the new policy is back without that statement
+		m := c.New
+		m.Import.Assigned = true
+		m.Import.Stmts = append([]c15Stmt{{PrefixSet: -1, Neighbor: c15SrcPeer(rapid.IntRange(0, 2).Draw(t, "mid_src")), Comm: -1, PathLenGE: -1, AddComm: -1, Disp: 2}}, c.New.Import.Stmts...)
+		c.Mid = &m
+	}
+	if c.Incremental || c.StaleSource {
+		c.Mid = nil
+	}
+	// (send-max is first come, first served in gobgp: with fewer slots than candidates the advertised set depends on
+	// the arrival order by design and the two runs are not comparable; 3 sources, so 3 or 4 slots)
+	c.SendMax = rapid.SampledFrom([]int{0, 0, 3, 4}).Draw(t, "send_max")
 	c.Reset = rapid.IntRange(0, 4).Draw(t, "reset")
 	if rapid.IntRange(0, 2).Draw(t, "sched_on") != 0 {
 		c.Sched = uint64(rapid.IntRange(1, 1<<30).Draw(t, "sched"))
@@ -314,7 +337,7 @@ func (r *c15Run) setPolicy(p *c15Program) error {
 	return nil
 }
 
-func c15Start(p *c15Program, staleSource bool) (*c15Run, error) {
+func c15Start(p *c15Program, staleSource bool, sendMax ...int) (*c15Run, error) {
 	g := rsApiGlobal(rsGlobal{})
 	// the decision between equal external paths must not depend on arrival order (the two runs differ in it)
 	g.RouteSelectionOptions = &api.RouteSelectionOptionsConfig{ExternalCompareRouterId: true}
@@ -323,6 +346,9 @@ func c15Start(p *c15Program, staleSource bool) (*c15Run, error) {
 		return nil, err
 	}
 	r := &c15Run{n: n, peers: c15Peers()}
+	if len(sendMax) > 0 {
+		r.peers[2].SendMax = sendMax[0]
+	}
 	for i := range r.peers {
 		ap := rsApiPeer(rsGlobal{}, &r.peers[i])
 		if staleSource && i == 0 {
@@ -355,23 +381,26 @@ func c15Start(p *c15Program, staleSource bool) (*c15Run, error) {
 	return r, nil
 }
 
+// c15SrcPeer maps a route's source number to the index of the peer that announces it.
+func c15SrcPeer(src int) int { return []int{0, 1, 4}[src] }
+
 func c15Prefix(i int) netip.Prefix { return netip.MustParsePrefix(c15Prefixes[i]) }
 
 func (r *c15Run) announce(rt c15Route) {
-	p := &r.peers[rt.Src]
+	p := &r.peers[c15SrcPeer(rt.Src)]
 	nlri, _ := bgp.NewIPAddrPrefix(c15Prefix(rt.Prefix))
 	a := c15Attrs(p, rt)
 	m := bgp.NewBGPUpdateMessage(nil, a.toBGP(nlri, false, 0), []bgp.PathNLRI{{NLRI: nlri}})
-	_ = r.sess[rt.Src].send(m, rsTxOpt(p))
-	r.logf("peer %d announces %s variant %d comm %d", rt.Src, c15Prefixes[rt.Prefix], rt.Variant, rt.Comm)
+	_ = r.sess[c15SrcPeer(rt.Src)].send(m, rsTxOpt(p))
+	r.logf("peer %d announces %s variant %d comm %d", c15SrcPeer(rt.Src), c15Prefixes[rt.Prefix], rt.Variant, rt.Comm)
 }
 
 func (r *c15Run) withdraw(rt c15Route) {
-	p := &r.peers[rt.Src]
+	p := &r.peers[c15SrcPeer(rt.Src)]
 	nlri, _ := bgp.NewIPAddrPrefix(c15Prefix(rt.Prefix))
 	m := bgp.NewBGPUpdateMessage([]bgp.PathNLRI{{NLRI: nlri}}, nil, nil)
-	_ = r.sess[rt.Src].send(m, rsTxOpt(p))
-	r.logf("peer %d withdraws %s", rt.Src, c15Prefixes[rt.Prefix])
+	_ = r.sess[c15SrcPeer(rt.Src)].send(m, rsTxOpt(p))
+	r.logf("peer %d withdraws %s", c15SrcPeer(rt.Src), c15Prefixes[rt.Prefix])
 }
 
 func (r *c15Run) collect() (*c15Result, *verifkit.Failure) {
@@ -452,7 +481,7 @@ func runC15(t *testing.T) func(c c15Case, st *verifkit.Stats) *verifkit.Failure 
 		var hist []string
 		// ---- history run ----
 		if f := simRun(t, func() *verifkit.Failure {
-			r, err := c15Start(&c.Old, c.StaleSource)
+			r, err := c15Start(&c.Old, c.StaleSource, c.SendMax)
 			if r != nil && r.n != nil {
 				defer r.n.stop()
 			}
@@ -474,6 +503,19 @@ func runC15(t *testing.T) func(c c15Case, st *verifkit.Stats) *verifkit.Failure 
 			}
 			if _, f := r.collect(); f != nil {
 				return f
+			}
+			if c.Mid != nil {
+				r.logf("-- intermediate policy, soft reset kind %d --", c.Reset)
+				if err := r.setPolicy(c.Mid); err != nil {
+					return verifkit.Failf("setup", "history run, intermediate policy: %v", err)
+				}
+				if err := r.reset(c.Reset); err != nil {
+					return verifkit.Failf("reset-error", "soft reset (intermediate policy): %v", err)
+				}
+				r.n.settle()
+				if _, f := r.collect(); f != nil {
+					return f
+				}
 			}
 			r.logf("-- policy changed (incremental=%v) --", c.Incremental)
 			if c.Incremental {
@@ -530,7 +572,7 @@ func runC15(t *testing.T) func(c c15Case, st *verifkit.Stats) *verifkit.Failure 
 		// ---- fresh run under the new policy ----
 		var fresh *c15Result
 		if f := simRun(t, func() *verifkit.Failure {
-			r, err := c15Start(&c.New, c.StaleSource)
+			r, err := c15Start(&c.New, c.StaleSource, c.SendMax)
 			if r != nil && r.n != nil {
 				defer r.n.stop()
 			}
@@ -578,6 +620,12 @@ func runC15(t *testing.T) func(c c15Case, st *verifkit.Stats) *verifkit.Failure 
 		}
 		if c.StaleSource {
 			st.Label("stale-source")
+		}
+		if c.Mid != nil {
+			st.Label("intermediate-policy")
+		}
+		if c.SendMax > 0 {
+			st.Label("add-path-target")
 		}
 		return nil
 	}
